@@ -317,18 +317,30 @@ def check_value_stacks(chk, rep, tier, only_units=False):
     return unames
 
 
+BASE_SG = {"E": ("op", "status"), "S0x": (), "S0i": (), "S1x": (1,), "S1i": (1,), "S2x": (1, 2), "S2i": (1, 2),
+           "S3x": (1, 2, 3), "S3i": (1, 2, 3), "S5x": (1, 2, 3, 4, 5), "S5i": (1, 2, 3, 4, 5)}
+
+
 def plain_fields(runs):
     """per run: field name -> recorded calls of the unwrapped entry"""
     return [{it["name"]: it["calls"] for it in ro.get("items", []) if it["t"] == "val"} for ro in runs]
 
 
 def check_entry_stacks(chk, rep, tier):
-    cfg = "MC_estacks_quick.cfg" if tier == "quick" else "MC_estacks.cfg"
+    # the entry with one field per base value; then the small entries that differ in their sample group
+    # (0/1/2/3/5 elements, exact and inexact size hints) through the same compositions
+    cfgs = [("MC_estacks_quick.cfg", "entries"), ("MC_estacks_sg_quick.cfg", "entries-sg")] if tier == "quick" else \
+           [("MC_estacks.cfg", "entries"), ("MC_estacks_sg_quick.cfg", "entries-sg2"), ("MC_estacks_sg.cfg", "entries-sg3")]
+    for cfg, tag in cfgs:
+        check_entry_cfg(chk, rep, tier, cfg, tag)
+
+
+def check_entry_cfg(chk, rep, tier, cfg, tag):
     r, beh, unames = tlc_behaviours(chk, "VPEntryStacks", cfg)
-    runs = rotations(chk, 1 if tier == "quick" else 2, 12)
+    runs = rotations(chk, 1 if tier == "quick" or tag != "entries" else 2, 12)
     for b in beh:
         b["runs"] = runs
-    outs = run_harness(chk, "entries", beh, "entries")
+    outs = run_harness(chk, "entries", beh, tag)
     plain = {b["base"]: plain_fields(outs[b["id"]]["runs"]) for b in beh if not b["stack"]}
     feat = collections.Counter()
     for b in beh:
@@ -358,10 +370,12 @@ def check_entry_stacks(chk, rep, tier):
                 feat["with_" + k] += 1
         if sum(1 for w in ws if w.startswith("Merge")) >= 2:
             feat["two_merges"] += 1
-        if len(b["sg"]) > 2:
+        if len(b["sg"]) > len(BASE_SG.get(b["base"], ())) and any(w.startswith("Merge") for w in ws):
             feat["sample_groups_concatenated"] += 1
-    chk.extra["entry_compositions"] = len(beh)
-    chk.extra["entry_composition_features"] = dict(feat)
+        if b["base"].endswith("i") and len(b["sg"]) > 2 and "Boxed" in ws:
+            feat["boxed_inexact_size_hint_group_over_2"] += 1
+    chk.extra["entry_compositions"] = chk.extra.get("entry_compositions", 0) + len(beh)
+    chk.extra.setdefault("entry_composition_features", {})[cfg] = dict(feat)
     mid = beh[len(beh) // 3]
     chk.sample({"entry_composition": esig(mid), "expected_items": [(x["t"], x.get("id") or x.get("name")) for x in mid["items"]],
                 "expected_sample_group": mid["sg"]})
@@ -437,9 +451,43 @@ def check_pairs(chk, rep, tier):
     chk.extra["unit_pairs"] = len(pairs)
     chk.extra["pair_shapes_run"] = dict(shapes_seen)
     chk.sample({"unit_pair": pairs[217], "meaning": "emitted = original * 2^e2 * 10^e10, unit name = to_name"})
+    # collectors: Distribution / Mean over elements that promise one unit and write another (all 26 x 26)
+    check_collect(chk, rep, tier, vlib.replay_lines(r, tag="COLLECT"), unames, start)
     # the #[metrics(unit = ...)] attribute
     check_attrs(chk, rep, attrs, unames, list(range(6)) if tier != "quick" else [start % 6, (start + 3) % 6, 5])
     return unames
+
+
+def check_collect(chk, rep, tier, lines, unames, start):
+    if len(lines) != 676:
+        raise vlib.ToolError(f"VPUnitPairs printed {len(lines)} collector pairs, expected 676")
+    for i, l in enumerate(lines):
+        l["id"] = i
+        l["mags"] = [(start + i) % 6] if tier == "quick" else [1, 3, 5]
+    outs = run_harness(chk, "collect", lines, "collect")
+    n_err = 0
+    for l in lines:
+        o = outs[l["id"]]
+        d = Diff()
+        cmp_collect(d, l, o, unames)
+        chk.evaluations += len(o["shapes"])
+        sig = f"promises {l['prom']}, writes {l['wrote']}"
+        if not rep.report(d, "Distribution/Mean over elements that", sig, {"kind": "collect", "behaviour": l, "observed": o, "units": unames}):
+            chk.traces += 1
+        if l["prom"] != l["wrote"]:
+            n_err += 1
+            chk.nontrivial.add("collect:" + sig)
+    chk.extra["collector_unit_pairs"] = len(lines)
+    chk.extra["collector_mismatch_pairs"] = n_err
+    chk.extra["collector_mismatch_pairs_with_None"] = sum(1 for l in lines if l["prom"] != l["wrote"] and "None" in (l["prom"], l["wrote"]))
+
+
+def cmp_collect(d, l, o, unames):
+    for sh in o["shapes"]:
+        if "panic" in sh:
+            d.add("C19", "panic", f"{sh['shape']}: panic: {sh['panic']}")
+            continue
+        cmp_call(d, f"{sh['shape']}", l[sh["shape"]], sh["calls"], sh["mags"], unames, True)
 
 
 def check_attrs(chk, rep, attrs, unames, mags):
@@ -531,7 +579,7 @@ def replay(prop, path):
                     cmp_call(d, it["name"], byfield[it["name"]]["expect"], it["calls"], o["mags"][it["name"]], unames, True)
     else:
         b = rp["behaviour"]
-        cmd = {"value": "values", "entry": "entries", "pair": "pairs"}[rp["kind"]]
+        cmd = {"value": "values", "entry": "entries", "pair": "pairs", "collect": "collect"}[rp["kind"]]
         # the unwrapped value / entry with the same magnitudes, for the differential part
         b0 = dict(b, id=b["id"] + 1, stack=[]) if rp["kind"] in ("value", "entry") else None
         outs = run_harness(chk, cmd, [b] + ([b0] if b0 else []), "replay")
@@ -551,6 +599,8 @@ def replay(prop, path):
                     d.add(prop, "panic", ro["panic"])
                 else:
                     cmp_entry(d, b, ro, unames, plain=pl[k])
+        elif rp["kind"] == "collect":
+            cmp_collect(d, b, o, unames)
         else:
             for sh in o["shapes"]:
                 if "panic" in sh:
